@@ -3,12 +3,12 @@
 (* decision table) is printed with the documented expectation.  BFS         *)
 (* enumerates all rows within (Free, MaxDev, MaxInvalid); -simulate draws   *)
 (* random rows of the full product.  Compact row format (see c20):          *)
-(*   "<12 option values in Order, comma separated>|<13 expected outputs in  *)
+(*   "<12 option values in Order, comma separated>|<14 expected outputs in  *)
 (*    ExpFields order, comma separated; sets joined by '+', empty = '-'>"   *)
 (* tools/props/x03.py turns it back into {cfg: {...}, exp: {...}}.          *)
 EXTENDS ServerConfig, TLC, Json, SequencesExt
 
-ExpFields == << "outcome", "redirHost", "redirPort", "proxyBook", "bypass", "adminUID", "keepAlive", "panel",
+ExpFields == << "outcome", "redirHost", "redirPort", "proxyBook", "bypass", "privKey", "adminUID", "keepAlive", "panel",
                 "dbFile", "bindRaw", "listen", "listenable", "pluginBook" >>
 
 RECURSIVE Join(_, _, _)
